@@ -293,6 +293,33 @@ class Ctx:
 
 
 # ---------------------------------------------------------------------------
+class SSuper:
+    def __init__(self, recv, owner):
+        self.recv, self.owner = recv, owner
+
+    def __sym_getattr__(self, I, name, node):
+        import inspect
+        cls = self.recv.cls if isinstance(self.recv, SObj) else type(self.recv)
+        mro = list(cls.__mro__)
+        if self.owner not in mro:
+            raise SymError("super(): %s is not in the MRO of %s" % (self.owner.__name__, cls.__name__))
+        for k in mro[mro.index(self.owner) + 1:]:
+            if name in k.__dict__:
+                raw = k.__dict__[name]
+                if inspect.isfunction(raw):
+                    if k is object:
+                        break
+                    return self.I_method(raw, name)
+                raise SymError("super().%s is not a plain method" % name)
+        if name == "__init__":
+            return lambda *a, **k: None
+        raise SymError("super().%s not found" % name)
+
+    def I_method(self, raw, name):
+        from .summaries import SMethod
+        return SMethod(self.recv, raw, name)
+
+
 class LoopSpec:
     def __init__(self, inv=None, decreases=None, types=None, modifies=(), kind=None, ghost=None):
         self.inv = inv
@@ -1270,6 +1297,8 @@ class Interp:
         # cast(T, x) -> x
         if isinstance(e.func, ast.Name) and e.func.id == "cast" and len(e.args) == 2:
             return self.eval(e.args[1], fr)
+        if isinstance(e.func, ast.Name) and e.func.id == "super" and not e.args and not e.keywords and "super" not in fr.env:
+            return self.make_super(fr)
         f = self.eval(e.func, fr)
         args = []
         for a in e.args:
@@ -1287,6 +1316,21 @@ class Interp:
 
     def call(self, f, args, kwargs, node, fr=None):
         return self.summ.call(self, f, args, kwargs, node, fr)
+
+    def make_super(self, fr):
+        """zero-argument super(): the method resolution order of the receiver's class after the class defining the running method"""
+        f = fr
+        while f is not None and (f.fi is None or "." not in f.fi.qualname):
+            f = f.outer
+        if f is None:
+            raise SymError("super() outside a method")
+        from .extract import real_module
+        owner = real_module(f.fi.modname)
+        for p_ in f.fi.qualname.split(".")[:-1]:
+            owner = getattr(owner, p_)
+        params = [a.arg for a in f.fi.node.args.args]
+        recv = f.env[params[0]]
+        return SSuper(recv, owner)
 
     # -- iteration ------------------------------------------------------------------------
     def make_iter(self, v, node=None):
